@@ -83,7 +83,7 @@ func ReadBasicTypeList[T constraints.Unsigned, K BasicType](buf *bytes.Buffer) (
 	}
 	count := int(t)
 
-	result := make([]K, 0, count)
+	result := make([]K, 0, min(count, buf.Len()))
 	var err error
 	for i := 0; i < count; i++ {
 		v, e := ReadBasicType[K](buf)
@@ -102,7 +102,7 @@ func ReadBasicTypeListLE[T constraints.Unsigned, K BasicType](buf *bytes.Buffer)
 	}
 	count := int(t)
 
-	result := make([]K, 0, count)
+	result := make([]K, 0, min(count, buf.Len()))
 	var err error
 	for i := 0; i < count; i++ {
 		v, e := ReadBasicTypeLE[K](buf)
@@ -144,6 +144,9 @@ func ReadString[T constraints.Unsigned](buf *bytes.Buffer) (string, error) {
 		return "", err
 	}
 	length := int(t)
+	if length > buf.Len() {
+		return "", io.ErrUnexpectedEOF
+	}
 
 	strBytes := make([]byte, length)
 	_, err := io.ReadFull(buf, strBytes)
@@ -156,6 +159,9 @@ func ReadStringLE[T constraints.Unsigned](buf *bytes.Buffer) (string, error) {
 		return "", err
 	}
 	length := int(t)
+	if length > buf.Len() {
+		return "", io.ErrUnexpectedEOF
+	}
 
 	strBytes := make([]byte, length)
 	_, err := io.ReadFull(buf, strBytes)
@@ -265,7 +271,7 @@ func ReadFixedStringListTrimPadding[T constraints.Unsigned](buf *bytes.Buffer, f
 	}
 	count := int(t)
 
-	result := make([]string, 0, count)
+	result := make([]string, 0, min(count, buf.Len()))
 	var err error
 	for i := 0; i < count; i++ {
 		str, e := ReadFixedStringTrimPadding(buf, fixedLen, padChar, padLeft)
@@ -288,7 +294,7 @@ func ReadFixedStringListTrimPaddingLE[T constraints.Unsigned](buf *bytes.Buffer,
 	}
 	count := int(t)
 
-	result := make([]string, 0, count)
+	result := make([]string, 0, min(count, buf.Len()))
 	var err error
 	for i := 0; i < count; i++ {
 		str, e := ReadFixedStringTrimPadding(buf, fixedLen, padChar, padLeft)
@@ -345,13 +351,16 @@ func ReadStringListLE[T constraints.Unsigned, K constraints.Unsigned](buf *bytes
 	}
 	count := int(t)
 
-	result := make([]string, 0, count)
+	result := make([]string, 0, min(count, buf.Len()))
 	for i := 0; i < count; i++ {
 		var k K
 		if err := binary.Read(buf, binary.LittleEndian, &k); err != nil {
 			return nil, err
 		}
 		length := int(k)
+		if length > buf.Len() {
+			return nil, errors.New("incomplete string bytes")
+		}
 
 		strBytes := make([]byte, length)
 		n, err := buf.Read(strBytes)
@@ -371,13 +380,16 @@ func ReadStringList[T constraints.Unsigned, K constraints.Unsigned](buf *bytes.B
 	}
 	count := int(t)
 
-	result := make([]string, 0, count)
+	result := make([]string, 0, min(count, buf.Len()))
 	for i := 0; i < count; i++ {
 		var k K
 		if err := binary.Read(buf, binary.BigEndian, &k); err != nil {
 			return nil, err
 		}
 		length := int(k)
+		if length > buf.Len() {
+			return nil, errors.New("incomplete string bytes")
+		}
 
 		strBytes := make([]byte, length)
 		n, err := buf.Read(strBytes)
@@ -413,7 +425,7 @@ func ReadObjectList[T constraints.Unsigned, K BinaryCodec](buf *bytes.Buffer, ne
 	}
 	count := int(t)
 
-	result := make([]K, 0, count)
+	result := make([]K, 0, min(count, buf.Len()))
 	for i := 0; i < count; i++ {
 		k := newFn()
 		if e := k.Decode(buf); e != nil {
@@ -447,7 +459,7 @@ func ReadObjectListLE[T constraints.Unsigned, K BinaryCodec](buf *bytes.Buffer, 
 	}
 	count := int(t)
 
-	result := make([]K, 0, count)
+	result := make([]K, 0, min(count, buf.Len()))
 	for i := 0; i < count; i++ {
 		k := newFn()
 		if e := k.Decode(buf); e != nil {
